@@ -12,7 +12,7 @@ _FALLBACK = None
 _PLATEAU = None
 SIZES = {  # (quick, thorough) number of pairs per stratum
     "uniform": (120, 2500), "threshold": (260, 6000), "grey": (80, 3000), "named": (60, 2000),
-    "nearbg": (80, 2000), "hair": (60, 1200), "witness": (900, 20000), "witness_neargrey": (900, 20000), "witness_special": (900, 20000), "witness_plateau": (900, 20000), "witness_crossover": (900, 20000), "witness_translucent": (900, 20000), "spell": (130, 3000), "isolum": (150, 3000), "hairline": (70, 1500), "corner": (120, 2500), "zeroone": (40, 400), "edge": (120, 2500), "ultrahair": (90, 1500), "neargrey": (90, 1500), "informal": (60, 1000), "razor": (150, 3000), "extreme": (60, 1500), "hslbg": (90, 2000), "witness_edge": (900, 20000), "history": (150, 3000), "equilum": (150, 3000), "witness_hsl": (900, 20000),
+    "nearbg": (80, 2000), "hair": (60, 1200), "witness": (900, 20000), "witness_neargrey": (900, 20000), "witness_special": (900, 20000), "witness_plateau": (900, 20000), "witness_crossover": (900, 20000), "witness_translucent": (900, 20000), "spell": (130, 3000), "isolum": (150, 3000), "hairline": (70, 1500), "corner": (120, 2500), "zeroone": (40, 400), "edge": (120, 2500), "ultrahair": (90, 1500), "neargrey": (90, 1500), "informal": (60, 1000), "razor": (150, 3000), "extreme": (60, 1500), "hslbg": (90, 2000), "witness_edge": (900, 20000), "history": (150, 3000), "equilum": (150, 3000), "css4": (80, 1500), "witness_hsl": (900, 20000),
 }
 
 
@@ -32,7 +32,7 @@ def strata(pid, t, rnd):
     def spelled(c, kind):
         return pairs.spell(c, kind, rnd)
 
-    w = {"C01": dict(uniform=1, threshold=1, grey=1, named=1, nearbg=.5, hair=.5, spell=1, isolum=.3, hairline=1, corner=.5, zeroone=1, edge=.5, ultrahair=1, neargrey=.5, informal=.5, razor=1, extreme=.5, hslbg=1, equilum=.4),
+    w = {"C01": dict(uniform=1, threshold=1, grey=1, named=1, nearbg=.5, hair=.5, spell=1, isolum=.3, hairline=1, corner=.5, zeroone=1, edge=.5, ultrahair=1, neargrey=.5, informal=.5, razor=1, extreme=.5, hslbg=1, equilum=.4, css4=1),
          "C02": dict(uniform=.7, threshold=1, grey=.7, named=.5, nearbg=.7, hair=1.5, spell=.6, isolum=4, hairline=1, corner=3, zeroone=1, ultrahair=.5, neargrey=1.5, informal=1.5, razor=1.4, extreme=.5, hslbg=1, equilum=.5),
          "C16": dict(uniform=.5, threshold=1.2, grey=.5, named=.3, nearbg=2.0, hair=.3, spell=.2, isolum=.5, edge=2, corner=.3, history=1, equilum=1),
          "C04": dict(uniform=1, threshold=1, grey=.5, named=.3, nearbg=1.5, hair=.2, spell=.3, isolum=.5),
@@ -196,6 +196,11 @@ def strata(pid, t, rnd):
                 if _PLATEAU:
                     c, bgc, lg, vr = _PLATEAU[k % len(_PLATEAU)]
                     add(c, bgc, lg, witness=True, runs=[(m, v2) for v2 in (vr, not vr) for m in (0, 1, 2)])
+            elif name == "css4":
+                # the background in a CSS Color 4 spelling the unchanged library refuses (nothing is judged then): hue with an angle
+                # unit, hex with an alpha pair.  A build that accepts them must read them as CSS does
+                a, b = pairs.near_threshold(rnd, rnd.choice(REQS), (-0.2, 0.2)) if k % 2 else (rnd.choice([(0, 0, 0), (255, 255, 255), pairs.rand_colour(rnd)]), pairs.rand_colour(rnd))
+                add(a, spelled(b, "hslunit" if k % 3 else "hex8"), large, "tuple")
             elif name == "equilum":
                 a, b = pairs.equilum(rnd)
                 add(a, b, large, runs=[(m, v2) for v2 in (False, True) for m in (1, 2, 0)])
